@@ -1,5 +1,9 @@
 #![allow(dead_code)]
 mod ag;
+mod c02;
+mod c04;
+mod c05;
+mod c06;
 mod c_diff;
 mod comp;
 mod dynp;
@@ -24,9 +28,66 @@ fn main() {
     rep::watchdog::start(a.out.clone(), stuck_s);
     match args[0].as_str() {
         "diff" => c_diff::main(&a),
+        "c02" => c02::main(&a),
+        "c04" => c04::main(&a),
+        "c05" => c05::main(&a),
+        "c06" => c06::main(&a),
+        "dump" => dump(&a),
         w => {
             eprintln!("unknown worker {w}");
             std::process::exit(2);
+        }
+    }
+}
+
+/// Debug helper: vh dump --file g.rustemo [--glr 1] [--table 0|1|2]
+fn dump(a: &rep::Args) {
+    let text = std::fs::read_to_string(&a.extra["file"]).unwrap();
+    let wd = comp::Workdir::new("dump");
+    let spec = comp::SetSpec {
+        glr: a.extra.contains_key("glr"),
+        table: a.extra.get("table").map(|t| t.parse().unwrap()),
+        ps: a.extra.get("ps").map(|t| t == "1"),
+        pse: a.extra.get("pse").map(|t| t == "1"),
+        ..Default::default()
+    };
+    let c = wd.compile(&text, &spec);
+    eprintln!("outcome: {}", c.outcome.show());
+    let Some(d) = c.dump else { return };
+    for (i, t) in d.grammar.terminals.iter().enumerate() {
+        eprintln!("term {i}: {} {:?} prio {} assoc {}", t.name, t.recognizer, t.prio, t.assoc);
+    }
+    for (i, n) in d.grammar.nonterminals.iter().enumerate() {
+        eprintln!("nonterm {i} (sym {}): {}", i + d.grammar.terminals.len(), n.name);
+    }
+    eprintln!("empty {} stop {} aug {} augl {:?} start {}", d.grammar.empty_index, d.grammar.stop_index, d.grammar.augmented_index, d.grammar.augmented_layout_index, d.grammar.start_index);
+    for (i, p) in d.grammar.productions.iter().enumerate() {
+        eprintln!("prod {i}: nt{} ({}) ntidx {} -> {:?} prio {} assoc {} nops {} nopse {} kind {:?} meta {:?}", p.nonterminal, d.grammar.nonterminals[p.nonterminal].name, p.ntidx, p.rhs.iter().map(|a| a.symbol).collect::<Vec<_>>(), p.prio, p.assoc, p.nops, p.nopse, p.kind, p.meta);
+    }
+    for (i, s) in d.table.states.iter().enumerate() {
+        eprintln!("state {i} sym {} sorted {:?}", s.symbol, s.sorted_terminals);
+        for it in &s.items {
+            eprintln!("   item p{} @{} {:?}", it.prod, it.position, it.follow);
+        }
+        for (t, a) in s.actions.iter().enumerate() {
+            if !a.is_empty() {
+                eprintln!("   on {} ({}): {:?}", t, d.grammar.terminals[t].name, a);
+            }
+        }
+        eprintln!("   gotos {:?}", s.gotos);
+    }
+    eprintln!("layout_state {:?} rn {:?}", d.table.layout_state, d.table.production_rn_lengths);
+    if let Some(input) = a.extra.get("input") {
+        let mut cfg = spec.dyn_cfg();
+        cfg.partial = a.extra.contains_key("partial");
+        let dy = dynp::Dyn::new(&d, cfg).unwrap();
+        dynp::set_step_limit(a.extra.get("steps").map(|s| s.parse().unwrap()).unwrap_or(100000));
+        if spec.glr {
+            let r = dynp::guarded(|| dy.glr_parse(input).map(|f| f.solutions()));
+            eprintln!("GLR => {:?} steps {}", r.map(|r| r.map_err(|e| e.to_pos_str())), dynp::steps());
+        } else {
+            let r = dynp::guarded(|| dy.lr_parse(input).map(|t| dynp::shown(&t)));
+            eprintln!("LR => {:?} steps {}", r.map(|r| r.map_err(|e| e.to_pos_str())), dynp::steps());
         }
     }
 }
